@@ -7,6 +7,8 @@
 //   BMP id runes                     bmpString(string(runes))                                     -> ok <bytes> | err
 //   BMD id bytes                     decodeBMPString                                              -> ok <runes> | err
 //   KDF id v salt password r ID size pbkdf(toy hash of 20 bytes, 20, v, ...)                      -> ok <key>
+//   KDS id salt password r ID size   pbkdf(sha1Sum, 20, 64, ...) as verifyMac / pbeCipherFor call it    -> ok <key>
+//                                    (no model: the predicate of checks/c17.py recomputes RFC 7292 B.2 with SHA-1)
 // The toy hash is the Go twin of toy_hash in coq/P12/PbkdfProofs.v.
 package main
 
@@ -82,6 +84,11 @@ func runCase(line string) string {
 			id, _ := strconv.Atoi(f[6])
 			size, _ := strconv.Atoi(f[7])
 			return "ok " + hx.Hex(pkcs12.VerifPbkdf(toyN(20), 20, v, hx.UnHex(f[3]), hx.UnHex(f[4]), r, byte(id), size))
+		case "KDS":
+			r, _ := strconv.Atoi(f[4])
+			id, _ := strconv.Atoi(f[5])
+			size, _ := strconv.Atoi(f[6])
+			return "ok " + hx.Hex(pkcs12.VerifPbkdf(pkcs12.VerifSha1Sum, 20, 64, hx.UnHex(f[2]), hx.UnHex(f[3]), r, byte(id), size))
 		}
 		return "BADCASE"
 	})
@@ -176,6 +183,38 @@ func gen(seed uint64, tier string, o *hx.Out) {
 		it := r.Pick([]int{1, 1, 2, 3, 7, 0, -1, -5})
 		size := r.Pick([]int{0, 1, 8, 16, 19, 20, 21, 24, 40, 41, 60, 64, 100})
 		emit("KDF # %d %s %s %d %d %d", v, hx.Hex(salt), hx.Hex(pw), it, r.Pick([]int{1, 2, 3, 255}), size)
+	}
+	genKDS(r, tier, emit)
+}
+
+func genKDS(r *hx.Rng, tier string, emit func(format string, a ...interface{})) {
+	lens := []int{0, 1, 31, 32, 33, 63, 64, 65, 200}
+	for _, sl := range lens {
+		for _, pl := range lens {
+			it := r.Pick([]int{1, 1, 2, 3, 7})
+			if sl == 8 || (sl == 64 && pl == 65) {
+				it = 2048
+			}
+			emit("KDS # %s %s %d %d %d", hx.Hex(r.Bytes(sl)), hx.Hex(r.Bytes(pl)), it, r.Pick([]int{1, 2, 3}), r.Pick([]int{8, 16, 20, 24, 40, 41, 64}))
+		}
+	}
+	// the shapes the package itself uses: 8-byte salt, BMP password, 2048 / 1 iterations, ID 1 (key 24 / 5), 2 (IV 8), 3 (MAC 20)
+	for _, pl := range []int{2, 8, 64, 66, 68, 130, 202} {
+		for _, id := range []int{1, 2, 3} {
+			size := map[int]int{1: 24, 2: 8, 3: 20}[id]
+			it := 2048
+			if id == 3 {
+				it = 1
+			}
+			emit("KDS # %s %s %d %d %d", hx.Hex(r.Bytes(8)), hx.Hex(r.Bytes(pl)), it, id, size)
+		}
+	}
+	n := 30
+	if tier == "thorough" {
+		n = 400
+	}
+	for i := 0; i < n; i++ {
+		emit("KDS # %s %s %d %d %d", hx.Hex(r.Bytes(r.Intn(140))), hx.Hex(r.Bytes(r.Intn(260))), 1+r.Intn(4), 1+r.Intn(3), 1+r.Intn(70))
 	}
 }
 
